@@ -474,14 +474,25 @@ func (w *world) applyBatch(r *replica, n int) bool {
 	r.inUpdate = false
 	r.inStep.Store(false)
 	if cp == nil && err == nil {
+		// judged in the C11 run only: in every other property's run the listener is still watched, but a
+		// finding there must not end the run before that property's own oracles have looked (a change that
+		// breaks both would otherwise be invisible to the other check)
+		judge := w.cfg.Prop == "C11"
 		if len(r.notifs) == 0 {
-			w.fail("C11", "no-apply-notification", "no-apply-notification", "Update of entries up to %d did not notify the applied-index listener", ents[n-1].Index)
-			return false
+			if judge {
+				w.fail("C11", "no-apply-notification", "no-apply-notification", "Update of entries up to %d did not notify the applied-index listener", ents[n-1].Index)
+				return false
+			}
+			w.out.Probe("other-property:C11/no-apply-notification")
 		}
 		for _, nf := range r.notifs {
 			if nf[1] < ents[n-1].Index {
-				w.fail("C11", "notified-before-visible", "notified-before-visible", "the applied-index listener was told about index %d while a read on the same node still reports applied index %d (batch ends at %d): a waiter released now would not observe its write", nf[0], nf[1], ents[n-1].Index)
-				return false
+				if judge {
+					w.fail("C11", "notified-before-visible", "notified-before-visible", "the applied-index listener was told about index %d while a read on the same node still reports applied index %d (batch ends at %d): a waiter released now would not observe its write", nf[0], nf[1], ents[n-1].Index)
+					return false
+				}
+				w.out.Probe("other-property:C11/notified-before-visible")
+				break
 			}
 		}
 		w.out.Probe("apply-notification-checked")
@@ -535,8 +546,11 @@ func (w *world) applyBatch(r *replica, n int) bool {
 				return false
 			}
 			if cr.Revision != e.index {
-				w.fail("C10", "revision", "revision-mismatch", "entry %d (%s): result carries revision %d", e.index, e.spec.T, cr.Revision)
-				return false
+				if w.cfg.Prop == "C10" {
+					w.fail("C10", "revision", "revision-mismatch", "entry %d (%s): result carries revision %d", e.index, e.spec.T, cr.Revision)
+					return false
+				}
+				w.out.Probe("other-property:C10/revision-mismatch")
 			}
 		}
 		if cat, msg := model.CheckResult(w.exp[r.pos+i], res[i].Result.Value, cr); cat != "" {
@@ -557,8 +571,11 @@ func (w *world) applyBatch(r *replica, n int) bool {
 			// transaction whose executed branch performs no operation. The revision
 			// travels in Result.Data.
 			w.out.Probe("txn-empty-branch")
-			w.fail("C10", "txn-revision", "txn-empty-branch-no-revision", "entry %d: transaction result carries no revision (empty Result.Data)", e.index)
-			return false
+			if w.cfg.Prop == "C10" {
+				w.fail("C10", "txn-revision", "txn-empty-branch-no-revision", "entry %d: transaction result carries no revision (empty Result.Data)", e.index)
+				return false
+			}
+			w.out.Probe("other-property:C10/txn-empty-branch-no-revision")
 		}
 		// C03: results are identical whichever replica / batching produced them
 		if prev, ok := w.results[e.index]; ok {
